@@ -792,6 +792,18 @@ void render(Project &p) {
       while (b < T.size() && !T[b].brk) b++;
       if (a == 0 && b >= T.size()) continue;
     } else {
+      if (p.layout.cut_defs == 1 && macro_end > 1 && rd.rng.chance(1, 3)) {
+        // a boundary inside a definition, preferably inside its pattern (between DEFINE and AS)
+        std::vector<size_t> pat;
+        bool in_pat = false;
+        for (size_t i = 0; i < macro_end; i++) {
+          std::string u = T[i].text; for (auto &ch : u) ch = (char)toupper((unsigned char)ch);
+          if (u == "DEFINE" || u == "DEF") in_pat = true;
+          else if (u == "AS") in_pat = false;
+          else if (in_pat) pat.push_back(i);
+        }
+        a = !pat.empty() && rd.rng.chance(2, 3) ? pat[rd.rng.below(pat.size())] : rd.rng.below(macro_end);
+      }
       size_t len = 1 + rd.rng.below(std::min<size_t>(T.size() - a, rd.rng.chance(1, 2) ? 4 : 30));
       b = std::min(T.size(), a + len);
       if (a == 0 && b >= T.size()) continue;
@@ -922,6 +934,7 @@ Json project_to_json(const Project &p) {
     Json l = Json::obj();
     l.set("style", p.layout.style).set("seed", (long long)p.layout.seed).set("nfiles", p.layout.nfiles).set("spelling", p.layout.spelling);
     if (p.layout.naming) l.set("naming", p.layout.naming);
+    if (p.layout.cut_defs) l.set("cut_defs", p.layout.cut_defs);
     j.set("layout", l);
   }
   return j;
@@ -933,7 +946,7 @@ Project project_from_json(const Json &j) {
     p.has_ast = true;
     p.ast = ast_from_json(j.at("ast"));
     const Json &l = j.at("layout");
-    p.layout.style = (int)l.num("style"); p.layout.seed = (uint64_t)l.num("seed"); p.layout.nfiles = (int)l.num("nfiles"); p.layout.spelling = (int)l.num("spelling"); p.layout.naming = (int)l.num("naming");
+    p.layout.style = (int)l.num("style"); p.layout.seed = (uint64_t)l.num("seed"); p.layout.nfiles = (int)l.num("nfiles"); p.layout.spelling = (int)l.num("spelling"); p.layout.naming = (int)l.num("naming"); p.layout.cut_defs = (int)l.num("cut_defs");
     render(p);
   } else {
     for (auto &kv : j.at("files").o) p.files[kv.first] = kv.second.s;
